@@ -495,6 +495,14 @@ def family(name, quick=True):
         out.append(("incr(1,2,max=4)", pipeline(retry_max=5, wait=["incr", 1, 2, 4], fail_until=99), []))
         out.append(("fixed(3)", pipeline(retry_max=3, wait=["fixed", 3], fail_until=99), []))
         out.append(("fixed(timedelta 1500ms)", pipeline(retry_max=3, wait=["fixed_td", 1500], fail_until=99), []))
+    elif name == "wait_deadline":
+        # the workflow timeout elapses while the run only waits for an event (nothing executing)
+        w1 = waiter(None)
+        w1["timeout"] = 20
+        out.append(("waiter(no wait timeout), workflow timeout 20", w1, [("Resp", None)]))
+        w2 = waiter(50)
+        w2["timeout"] = 20
+        out.append(("waiter(wait timeout 50), workflow timeout 20", w2, [("Resp", None)]))
     elif name == "waits_close":
         out.append(("two_timers(30ms apart)", two_timers(30), []))
     elif name == "waits_queue":
